@@ -1,4 +1,5 @@
 import AffVerif.Proofs.PruneShape
+import AffVerif.Proofs.ElimSound
 import AffVerif.Props.C02
 /-!
 # C03 — pruning never changes the represented (partial) function
@@ -11,8 +12,9 @@ skipped only when its other branch is such an edge (this is how `graftP` is defi
 this is enough).  The cached states of the left operand enter through `InfSound` (a node marked infeasible has
 an empty path region), which C05 establishes for every history.
 
-Part 2 (`infeasible_elimination`) is stated in `C03_elim_FULL` below and proved for the sweep in `Proofs/ElimSound.lean`
-as far as it is done.
+Part 2: `infeasible_elimination` (the depth-first sweep with the three phases, deferred removal that never takes
+the last child of a decision, and `forward_if_redundant`) preserves the function for every backend that is
+right about infeasibility and every behaviour of the `mirror_points` heuristic (`C03_elim_sound`).
 -/
 set_option linter.unusedSectionVars false
 set_option linter.unusedVariables false
@@ -51,6 +53,21 @@ theorem C03_arith_prune {σ : Type} (tol : α) (lp : LPOracle σ α) (hlp : Infe
       = PT.eval (PT.composeS (Schema.arith op) a b c').1 x :=
   C03_prune_eq_unpruned (Schema.arith op) _ (isEdgeFeasible_sound tol lp hlp) n a b s c c' x
     (PT.pruneOK_of_shaped _ b a n m ha (fun t _ _ => PT.binOK_arith_of_shaped op b t n m hb)) hc
+
+/-- `infeasible_elimination` never alters the represented partial function: same definedness, same value, at
+    every input — for any LP backend that is right when it says "infeasible" and any `mirror_points` -/
+theorem C03_elim_sound {σ : Type} (tol : α) (O : Oracles σ α) (hlp : InfeasibleSound O.lp)
+    (n m : Nat) (t : PT α) (s : σ) (x : List α) (ht : PT.Shaped 2 n m t) (hc : PT.InfSound [] t) :
+    PT.eval (infeasibleElimination tol O n t s).1 x = PT.eval t x :=
+  PT.eval_infeasibleElimination tol O hlp n t s x (PT.elimOK_of_shaped t n m ht) hc
+
+/-- a node is removed or by-passed only on an `Infeasible` verdict for its closed path polytope, which is sound:
+    the decision procedure of a node never invents infeasibility -/
+theorem C03_only_infeasible_paths_disappear {σ : Type} (tol : α) (O : Oracles σ α) (hlp : InfeasibleSound O.lp)
+    (s : σ) (node : Nat) (pst : NState α) (path : List (Aff α)) (hyper : Aff α) (n : Nat)
+    (h : (decideNode tol O s node pst path hyper n).1.isInfeasible = true) :
+    ¬ ∃ x, InPath (path ++ [hyper]) x :=
+  decideNode_sound tol O hlp s node pst path hyper n h
 
 /-! ### non-vacuity -/
 
